@@ -251,3 +251,21 @@ theorem Reg_add_spec {α : Type} (r r' : Reg α) (a : α) (i : Nat) (h : r.add a
     exact ⟨by simpa using this.2, rfl⟩
 
 end Iox2.PubSub.C01P
+
+namespace Iox2.PubSub.C01P
+open Iox2.PubSub
+
+def deliverPub (P : Pub) (ch : Nat) (ev : Option Nat) : Pub :=
+  match ev with | some old => (P.borrowChunk ch).releaseChunk old | none => P.borrowChunk ch
+
+theorem deliverTo_some (w : World) (p s ch q : Nat) (P : Pub) (c : Conn) (hP : getP w p = some P)
+    (hC : getC w p s = some c) :
+    deliverTo w p s ch q =
+      match (c.trySend w.cfg.overflow ch q).2 with
+      | .ok ev => (setP (setC w (c.trySend w.cfg.overflow ch q).1) p (deliverPub P ch ev), true)
+      | _ => (setC w (c.trySend w.cfg.overflow ch q).1, false) := by
+  unfold deliverTo
+  rw [hP, hC]
+  rfl
+
+end Iox2.PubSub.C01P
